@@ -85,6 +85,30 @@ static void build_corpus (void) {
       snprintf (name, sizeof name, "loop:%s:%s", lf_name[f], lb_name[b]);
       add_prog ('L', name, "", body);
     }
+  /* ---- a master apply made by an efun spends the whole budget (policy "burn"): the evaluation that called the efun must end there,
+   * whether the driver safe_apply()s that master function or not, at every depth of the calling code (the function the driver
+   * calls itself = first control frame, one call deeper, below run()'s catch) */
+  {
+    static const struct { const char *apply, *call; } ma[] = {
+      { "object_name", "gv = sprintf(\"%O\", this_object());" }, { "valid_read", "gv = read_file(\"/c04/big.txt\", 1, 1);" },
+      { "valid_write", "gv = write_file(\"/c04/out.tmp\", \"x\", 1);" }, { "valid_seteuid", "gv = seteuid(getuid());" },
+      { "creator_file", "gv = new(\"/c04/p\");" }, { "valid_object", "gv = load_object(\"/c04/lo\");" }, { "valid_bind", "gv = bind((: nop :), this_object());" } };
+    static const struct { const char *name, *fmt; } form[] = {
+      { "loop", "  master()->set_policy(\"burn\", \"%s\");\n  while (1) { %s }" },
+      { "loop-of-catch", "  master()->set_policy(\"burn\", \"%s\");\n  while (1) { catch { %s }; }" },
+      { "once-then-loop", "  master()->set_policy(\"burn\", \"%s\");\n  %s\n  master()->set_policy(\"burn\", 0);\n  while (1) ;" },
+      { "once-in-catch-then-loop", "  master()->set_policy(\"burn\", \"%s\");\n  catch { %s };\n  master()->set_policy(\"burn\", 0);\n  while (1) ;" } };
+    for (unsigned a = 0; a < sizeof ma / sizeof *ma; a++)
+      for (unsigned f = 0; f < sizeof form / sizeof *form; f++)
+        for (int depth = 0; depth < 3; depth++) {
+          char inner[900];
+          snprintf (inner, sizeof inner, form[f].fmt, ma[a].apply, ma[a].call);
+          if (depth == 1) { snprintf (helpers, sizeof helpers, "void lp() {\n%s\n}", inner); snprintf (body, sizeof body, "  lp();"); }
+          else { helpers[0] = 0; snprintf (body, sizeof body, "%s", inner); }
+          snprintf (name, sizeof name, "master-burn:%s:%s:%s", ma[a].apply, form[f].name, depth == 0 ? "first-frame:entry=body" : depth == 1 ? "second-frame:entry=body" : "below-catch");
+          add_prog ('L', name, helpers, body);
+        }
+  }
   /* ---- catch nestings around an endless loop / endless recursion */
   add_prog ('L', "catch:catch(loop)", "", "  catch(spin());");
   add_prog ('L', "catch:catch(catch(loop))", "", "  catch(catch(spin()));");
@@ -345,6 +369,23 @@ static void build_corpus (void) {
             }
       }
   }
+  /* ---- string (+) number: the left operand is within 0..25 characters of MaxStringLength, the right one is an int or a float whose
+   * text has 1..20 (int) or up to ~310 (float) characters */
+  {
+    static const int kk[] = { 0, 1, 2, 3, 5, 8, 12, 19, 20, 21, 25 };
+    static const struct { const char *name, *lit; } num[] = { { "int-1-digit", "7" }, { "int-7-digits", "1234567" }, { "int-20-chars", "(-9223372036854775807)" },
+                                                               { "float-short", "1.5" }, { "float-300-digits", "1.0e300" } };
+    static const struct { const char *name, *expr; } sop[] = { { "a+n", "v = a + n;" }, { "a+=n", "a += n; v = a;" }, { "n+a", "v = n + a;" }, { "global+=n", "gw = a; a = 0; gw += n; v = gw; gw = 0;" } };
+    for (unsigned k = 0; k < sizeof kk / sizeof *kk; k++)
+      for (unsigned nn = 0; nn < sizeof num / sizeof *num; nn++)
+        for (unsigned o = 0; o < sizeof sop / sizeof *sop; o++)
+          for (int guarded = 0; guarded < 2; guarded++) {
+            snprintf (body, sizeof body, "  mixed a, v, e; mixed n = %s; int la = @S - %d;\n  if (la < 0) return;\n  a = repeat_string(\"a\", la);\n  %s%s%s\n  gv = v; gw = 0;",
+                      num[nn].lit, kk[k], guarded ? "e = catch { " : "", sop[o].expr, guarded ? " };" : "");
+            snprintf (name, sizeof name, "pair:string-number:%s:%s:left=L-%d:%s", sop[o].name, num[nn].name, kk[k], guarded ? "in-catch" : "plain");
+            add_prog ('V', name, "", body);
+          }
+  }
   /* literal aggregates larger than the limit */
   {
     char agg[6000]; size_t n = 0;
@@ -486,7 +527,8 @@ static void elem1 (long idx) {
   neolith_verif_insn_hook = hook;
 #endif
   monitoring = 1;
-  svalue_t *r = hx_apply (ob, "run", 0);
+  /* ":entry=body" in the name: the driver calls body() directly (the code under test runs in the FIRST control frame) */
+  svalue_t *r = hx_apply (ob, strstr (p->name, ":entry=body") ? "body" : "run", 0);
   monitoring = 0;
   int limit = vw_limit_mask;
   char ltext[120]; snprintf (ltext, sizeof ltext, "%s", vw_first_limit_text);
@@ -568,6 +610,9 @@ int main (int argc, char **argv) {
     if (j < 0) { fprintf (stderr, "no program named %s\n", only); return 2; }
     progs[0] = progs[j]; nprogs = 1;
   }
+  /* --progkinds=LR: only the programs of these kinds (the value builders 'V' do not depend on the evaluation limits and the master) */
+  const char *pk = vx_opt ("progkinds", 0);
+  if (pk && !only) { long j = 0; for (long i = 0; i < nprogs; i++) if (strchr (pk, progs[i].kind)) progs[j++] = progs[i]; nprogs = j; }
   if (vx_opt ("list", 0)) { for (long i = 0; i < nprogs; i++) printf ("%ld %c %s\n", i, progs[i].kind, progs[i].name); return 0; }
   vx_count_name (0, "evaluations_run"); vx_count_name (1, "limit_error_raised"); vx_count_name (2, "any_error_raised");
   fprintf (stderr, "h_c04: conf E=%ld D=%ld K=%ld A=%ld M=%ld S=%ld B=%ld master=%s programs=%ld\n", E, D, K, A, M, S, B, master_mode, nprogs);
